@@ -67,6 +67,17 @@ def cases(tier, seed):
         for style in ("rest", "google", "numpydoc"):
             for ta in (True, False):
                 yield dict(kind="doctrans", program=name, style=style, type_annotations=ta)
+    # the C07 program alphabet (sub-alphabet of definitions, singly and in pairs) - each doctrans round under fuel
+    from mc import programs as P
+
+    for defs in P.SUB:
+        for style in ("rest", "google", "numpydoc"):
+            for ta in (True, False):
+                yield dict(kind="doctrans", key=dict(defs=[defs]), style=style, type_annotations=ta)
+    if tier == "thorough":
+        for key, src in P.pair_programs(same_name=(False,)):
+            for style in ("rest", "numpydoc"):
+                yield dict(kind="doctrans", key=key, style=style, type_annotations=True)
 
 
 def budget(n):
@@ -140,7 +151,12 @@ def run(case):
     elif case["kind"] == "doctrans":
         import cdd.compound.doctrans
 
-        src = dict(PROGRAMS)[case["program"]]
+        if "key" in case:
+            from mc import programs as P
+
+            src = P.render_program(case["key"])
+        else:
+            src = dict(PROGRAMS)[case["program"]]
         d = tempfile.mkdtemp(prefix="c11_")
         path = os.path.join(d, "m.py")
         try:
